@@ -17,7 +17,7 @@ def units(prop, tier, seed, order):
     grid = []
     for cls in ("T", "S"):
         for old in SIZES:
-            for new in SIZES + [-1, -3, -0.5]:
+            for new in SIZES + [-1, -3, -0.5, float("-inf")]:
                 for total in (0, 1, 2, 3, 5, 8):
                     grid.append((cls, old, new, total))
     reps = 1 if tier == "quick" else 40
